@@ -61,9 +61,17 @@ Verdicts(r) ==
         \cup (IF r.ms > 10000 /\ Lt(w, FromInt(1000000)) THEN {<<"C11", "executing a covenant of weight below 10^6 took more than 10 seconds">>} ELSE {})
         \cup (IF r.work > WEIGH_C1 * n * n + 16 THEN {<<"C11", "weighing cost super-quadratic in program length">>} ELSE {})
 
+\* deep nesting, run in a child process: k nested Loop(0, 65535) followed by PushIC 1 weigh k + 1
+DeepVerdicts(r) ==
+       (IF r.status # "ok" THEN {<<"C09", "weighing a covenant of deeply nested loops killed the process (" \o r.status \o ")">>,
+                                 <<"C11", "weighing a covenant of deeply nested loops killed the process (" \o r.status \o ")">>} ELSE {})
+  \cup (IF r.status = "ok" /\ r.weight # FromInt(r.k + 1) THEN {<<"C11", "covenant weight differs from the specification">>, <<"C05", "covenant weight differs from the specification">>} ELSE {})
+  \cup (IF r.status = "ok" /\ r.ms > 20000 THEN {<<"C11", "weighing a covenant took more than 20 seconds">>} ELSE {})
+AllVerdicts(r) == IF r.ev = "deep" THEN DeepVerdicts(r) ELSE Verdicts(r)
+
 Init == l = 1
 Next == /\ l <= Len(Rec)
         /\ l' = l + 1
-        /\ \A v \in Verdicts(Rec[l]) : PrintT(ToJson([k |-> "VERDICT", p |-> v[1], l |-> l, c |-> v[2], fam |-> Rec[l].fam]))
+        /\ \A v \in AllVerdicts(Rec[l]) : PrintT(ToJson([k |-> "VERDICT", p |-> v[1], l |-> l, c |-> v[2], fam |-> Rec[l].fam]))
 Post == TLCGet("stats").diameter - 1 = Len(Rec)
 =============================================================================
